@@ -25,6 +25,21 @@ def main(tier):
         calls, h = histrun.reference_calls(PROP, b, idx, "sw", prof)
         plans = histrun.crash_plans(calls, every=2 if quick else 1)
         res.merge(histrun.run_sweep(PROP, b, idx, "sw", prof, ORACLES, plans))
+    # one failing stat()/read()/open()/write() inside qmail-send per run (transient I/O trouble must not lead to a second
+    # pass on the same message or to an attempt for a finished recipient; a failed MARK write legitimately does)
+    prof2 = dict(prof, count="mtr", trace_extra="tr", before_start=1.0, hold_reports=0.5, p_term_restart=0.12, plan_persist=True,
+                 conc=[2, 5], spawn=[120])
+    for idx in histrun.pick_scenarios(PROP, b, "fs", prof2, 1 if quick else 3):
+        calls, h = histrun.reference_calls_log(PROP, b, idx, "fs", prof2)
+        plans = [pl for pl in histrun.fault_plans(calls, every=1)]
+        res.counters.inc("fault_sweep_reference_calls", len(calls))
+        res.merge(histrun.run_sweep(PROP, b, idx, "fs", prof2, ORACLES, plans))
+    # directed: a deferred two-channel message, clean stop, restart with one failing stat()/read() of a queue file
+    # during the start-up scan or later, reports withheld so that a second pass would overlap the first
+    prof3 = {"directed": "restart-fault", "count": "tro", "trace_extra": "tr", "incarnation": 2, "conc": [5], "spawn": [120], "lifetimes": [604800]}
+    calls, h = histrun.reference_calls_log(PROP, b, 0, "rf", prof3, classes=("stat", "lstat", "read", "openr"))
+    res.counters.inc("restart_fault_reference_calls", len(calls))
+    res.merge(histrun.run_sweep(PROP, b, 0, "rf", prof3, ORACLES, histrun.fault_plans(calls, every=1)))
     rule = ("seeded random histories at the spawner boundary of the real qmail-send: concurrencylocal/remote in {0,1,2,5,120,255}, "
             "announced spawner limit in {0,1,3,120,255}, 1-4 messages with 1-7 recipients (25% with one address listed twice), reports "
             "withheld to fill all slots, TERM with 0..n outstanding then restart, crashes (random and before every mutating call of a "
